@@ -5,7 +5,7 @@
   validator, vanishing staked weight, weight overflow); the model mirrors those and the checks report them.
 -/
 import AllianceProofs
-import Generated.Arith
+import Generated.Tables
 import Generated.Facts
 namespace Alliance
 namespace C17
